@@ -7,6 +7,11 @@ import WzVerif.Lemmas.Chunked
 import WzVerif.Model.DevServer
 import WzVerif.Lemmas.DevServer
 import WzVerif.Gen.Framing
+import WzVerif.Gen.RunWsgiFacts
+import WzVerif.Gen.EnvKeys
+import WzVerif.Model.DevServerRun
+import WzVerif.Lemmas.DevServerRun
+import WzVerif.Model.LimitedStream
 namespace Wz.Props.C19
 open Wz Wz.Chunked Wz.DevServer Wz.Gen.Framing
 
@@ -462,6 +467,300 @@ theorem response_wire_exact (r : Resp) (written yielded : List Bytes)
 
 example : runWsgi ⟨"HTTP/1.1".toList, "200 OK".toList, [], [], false⟩ [] []
     = strBytes "HTTP/1.1 200 OK\r\nTransfer-Encoding: chunked\r\nConnection: close\r\n\r\n0\r\n\r\n".toList := by
+  decide +kernel
+
+/-! ### `run_wsgi` as a state machine: every application behaviour -/
+
+open Wz.RunWsgi
+
+theorem rollback_inv {c : Conf} {pre : Bytes} {st : HState} (h : WInv c pre st) : WInv c pre (rollback st) := by
+  unfold rollback
+  by_cases hn : st.statusSent.isNone = true
+  · simp only [hn, if_true]
+    have hnone : st.statusSent = none := by simpa using hn
+    refine ⟨h.notDone, h.unsent, h.sent, fun ht => ?_⟩
+    have : st.headersSent = none := (h.unsent hnone).1
+    simp [this, truthy] at ht
+  · simp only [hn, Bool.false_eq_true, if_false]; exact h
+
+/-- **Headers exactly once, before the first body byte; every body byte inside exactly one frame, in
+order; the terminating chunk last and only when chunked** — for *every* application behaviour
+(`start_response` called any number of times with or without `exc_info`, `write()` before or after it,
+any mix of `write()` calls and yielded pieces, empty pieces, exceptions raised anywhere, a `close`
+method or none) and every fallback application: the bytes on the wire are the interim response(s),
+then — if anything was sent at all — one head built from the status and headers that were set when
+the first `write` happened (`Transfer-Encoding: chunked` iff the framing decision says so), then the
+frames of the successful `write` calls in order (`frame`: nothing for an empty piece; `size CRLF data
+CRLF` when chunked; the data itself otherwise), then possibly the zero chunk, which implies chunked
+framing. Nothing else is ever written. -/
+theorem run_wsgi_wire_structure (c : Conf) (pre : Bytes) (expect : Bool) (a fb : AppRun) :
+    (runHandler c pre expect a fb).wire = (runHandler c pre expect a fb).final.wire ∧
+    ((runHandler c pre expect a fb).final.statusSent = none →
+      (runHandler c pre expect a fb).wire = startWire pre expect) ∧
+    (∀ s, (runHandler c pre expect a fb).final.statusSent = some s →
+      ∃ h, (runHandler c pre expect a fb).final.headersSent = some h ∧
+        (runHandler c pre expect a fb).final.chunk = (respOf c s h).chunked ∧
+        (runHandler c pre expect a fb).wire = startWire pre expect ++ (respOf c s h).head
+          ++ framesOf (runHandler c pre expect a fb).final.chunk (runHandler c pre expect a fb).final.pieces
+          ++ (if (runHandler c pre expect a fb).final.done then zeroChunk else [])) ∧
+    ((runHandler c pre expect a fb).final.done = true → (runHandler c pre expect a fb).final.chunk = true) := by
+  have key : (runHandler c pre expect a fb).wire = (runHandler c pre expect a fb).final.wire ∧
+      Final c (startWire pre expect) (runHandler c pre expect a fb).final := by
+    unfold runHandler finish
+    have h0 : WInv c (startWire pre expect) { wire := startWire pre expect } := WInv.fresh c _
+    obtain ⟨_, hr, hc⟩ := execute_spec _ a h0
+    generalize execute c { wire := startWire pre expect } a = r at hr hc
+    obtain ⟨st1, cl, raised⟩ := r
+    simp only at hr hc ⊢
+    cases raised with
+    | false => exact ⟨rfl, (hc rfl).1⟩
+    | true =>
+      simp only [Bool.not_true, Bool.false_eq_true, if_false]
+      obtain ⟨_, hr2, hc2⟩ := execute_spec _ fb (rollback_inv (hr rfl))
+      generalize execute c (rollback st1) fb = r3 at hr2 hc2
+      obtain ⟨st3, cl3, raised3⟩ := r3
+      simp only at hr2 hc2 ⊢
+      cases raised3 with
+      | false => exact ⟨trivial, (hc2 rfl).1⟩
+      | true => exact ⟨trivial, (hr2 rfl).final⟩
+  obtain ⟨hw, hf⟩ := key
+  refine ⟨hw, fun hn => ?_, fun s hs => ?_, hf.done_chunk⟩
+  · rw [hw]; exact (hf.unsent hn).1
+  · obtain ⟨h, e1, e2, e3⟩ := hf.sent s hs
+    exact ⟨h, e1, e2, by rw [hw]; exact e3⟩
+
+/-- an application that sets the status twice before writing, writes an empty and a non-empty piece
+and yields another one, on HTTP/1.1 without Content-Length -/
+example : (runHandler ⟨"HTTP/1.1".toList, [], false⟩ [] false
+    { call := [.start "200 OK".toList [] false, .start "201 Created".toList [("A".toList, "1".toList)] false,
+               .emit [], .emit [97]], iter := [.emit [98, 99]] } { call := [] }).wire
+    = strBytes "HTTP/1.1 201 Created\r\nA: 1\r\nTransfer-Encoding: chunked\r\nConnection: close\r\n\r\n1\r\na\r\n2\r\nbc\r\n0\r\n\r\n".toList := by
+  decide +kernel
+
+/-- **A run that completes is a complete response**: when no exception escapes, a head *was* sent
+(also when the application wrote and yielded nothing), the terminating chunk is there exactly when
+the response is chunked, the wire is `head ++ bodyWire` — so `response_wire_exact` /
+`response_wire_roundtrip` apply: parsing the head gives back status and headers, de-chunking the body
+with any read sizes gives the pieces — and the pieces are exactly the data of the application's
+`write()` calls and yielded pieces, in order (`execute`'s closing `write(b"")` adds nothing). -/
+theorem run_wsgi_complete_response (c : Conf) (pre : Bytes) (expect : Bool) (a fb : AppRun)
+    (hok : (runHandler c pre expect a fb).failed = false) :
+    ∃ s h, (runHandler c pre expect a fb).final.statusSent = some s ∧
+      (runHandler c pre expect a fb).final.headersSent = some h ∧
+      (runHandler c pre expect a fb).final.done = (respOf c s h).chunked ∧
+      (runHandler c pre expect a fb).wire = startWire pre expect ++ (respOf c s h).head
+        ++ bodyWire (respOf c s h).chunked (runHandler c pre expect a fb).final.pieces ∧
+      (runHandler c pre expect a fb).final.pieces.flatten = (emitsOf (a.call ++ a.iter)).flatten := by
+  obtain ⟨_, _, hsent, _⟩ := run_wsgi_wire_structure c pre expect a fb
+  have key : (runHandler c pre expect a fb).final.statusSent.isSome = true ∧
+      (runHandler c pre expect a fb).final.done = (runHandler c pre expect a fb).final.chunk ∧
+      (runHandler c pre expect a fb).final.pieces.flatten = (emitsOf (a.call ++ a.iter)).flatten := by
+    unfold runHandler finish at hok ⊢
+    have h0 : WInv c (startWire pre expect) { wire := startWire pre expect } := WInv.fresh c _
+    obtain ⟨_, _, hc⟩ := execute_spec _ a h0
+    have hp := execute_pieces (c := c) { wire := startWire pre expect } a
+    generalize execute c { wire := startWire pre expect } a = r at hc hp hok
+    obtain ⟨st1, cl, raised⟩ := r
+    simp only at hc hp hok ⊢
+    cases raised with
+    | true => simp at hok
+    | false =>
+      simp only [Bool.not_false, if_true]
+      exact ⟨(hc rfl).2.1, (hc rfl).2.2, by simpa using hp rfl⟩
+  obtain ⟨hsome, hdone, hpieces⟩ := key
+  obtain ⟨s, hs⟩ := Option.isSome_iff_exists.mp hsome
+  obtain ⟨h, e1, e2, e3⟩ := hsent s hs
+  refine ⟨s, h, hs, e1, by rw [hdone, e2], ?_, hpieces⟩
+  rw [e3, bodyWire_frames, hdone, e2]
+  simp [List.append_assoc]
+
+example : (runHandler ⟨"HTTP/1.1".toList, [], false⟩ [] false
+    { call := [.start "204 No Content".toList [("A".toList, "1".toList)] false] } { call := [] }).wire
+    = strBytes "HTTP/1.1 204 No Content\r\nA: 1\r\nConnection: close\r\n\r\n".toList := by decide +kernel
+
+/-- **An error after the head is never papered over** (partial: the header list that was sent is not
+empty). If the application's run ends with an exception after a head with at least one header was
+sent, `execute(InternalServerError())` adds nothing — its `start_response` hits "Headers already set"
+— and no terminating chunk is written: the client of a chunked response sees a body that does not end
+(`dechunk_safety`: reading on raises OSError), the client of a Content-Length response a short body. -/
+theorem run_wsgi_error_after_head_partial (c : Conf) (pre : Bytes) (expect : Bool) (a fb : AppRun)
+    (st1 : HState) (cl : Nat)
+    (hex : execute c { wire := startWire pre expect } a = (st1, cl, true))
+    (hsent : st1.statusSent.isSome = true) (hne : truthy st1.headersSent = true)
+    (s' : Str) (h' : List (Str × Str)) (rest : List Ev) (hfb : fb.call = .start s' h' false :: rest) :
+    (runHandler c pre expect a fb).wire = st1.wire ∧ (runHandler c pre expect a fb).final.done = false ∧
+    (runHandler c pre expect a fb).failed = true := by
+  have h0 : WInv c (startWire pre expect) { wire := startWire pre expect } := WInv.fresh c _
+  obtain ⟨_, hr, _⟩ := execute_spec _ a h0
+  rw [hex] at hr
+  have h1 := hr rfl
+  have hset : truthy st1.headersSet = true := by rw [h1.frozen hne]; exact hne
+  have hrb : rollback st1 = st1 := by
+    unfold rollback
+    cases hs : st1.statusSent <;> simp [hs] at hsent ⊢
+  have hfbx : execute c st1 fb = (st1, 0, true) := by
+    simp [execute, hfb, runEvs, step, hset]
+  unfold runHandler finish
+  rw [hex]
+  simp only [Bool.not_true, Bool.false_eq_true, if_false, hrb, hfbx]
+  exact ⟨trivial, h1.notDone, trivial⟩
+
+example : (runHandler ⟨"HTTP/1.1".toList, [], false⟩ [] false
+    { call := [.start "200 OK".toList [("A".toList, "1".toList)] false], iter := [.emit [97]], iterRaises := true }
+    { call := [.start "500 X".toList [("B".toList, "2".toList)] false], iter := [.emit [98]] }).wire
+    = strBytes "HTTP/1.1 200 OK\r\nA: 1\r\nTransfer-Encoding: chunked\r\nConnection: close\r\n\r\n1\r\na\r\n".toList := by
+  decide +kernel
+
+/-- **Known finding F19c**: at full strength — "the terminating chunk is sent only when the
+application's iterable finished without error" — the statement is false. `start_response` and
+`execute` test the *truthiness* of `headers_set` / `headers_sent`, so an **empty** header list counts
+as "not set / not sent": after a chunked response with no headers has begun and the application then
+raises, `execute(InternalServerError())` is let through, the error page is appended to the body as
+one more chunk and the zero chunk is written. The client receives a well-formed, complete `200`
+response whose body is the partial output followed by the 500 page. -/
+theorem run_wsgi_error_after_head_full_false :
+    ¬ (∀ (c : Conf) (pre : Bytes) (expect : Bool) (a fb : AppRun) (st1 : HState) (cl : Nat),
+        execute c { wire := startWire pre expect } a = (st1, cl, true) → st1.statusSent.isSome = true →
+        (runHandler c pre expect a fb).final.done = false) := by
+  intro h
+  have := h ⟨"HTTP/1.1".toList, [], false⟩ [] false
+    { call := [.start "200 OK".toList [] false], iter := [.emit [97]], iterRaises := true }
+    { call := [.start "500 X".toList [("B".toList, "2".toList)] false], iter := [.emit [98]] }
+    _ _ rfl (by decide +kernel)
+  revert this
+  decide +kernel
+
+example : (runHandler ⟨"HTTP/1.1".toList, [], false⟩ [] false
+    { call := [.start "200 OK".toList [] false], iter := [.emit [97]], iterRaises := true }
+    { call := [.start "500 X".toList [("B".toList, "2".toList)] false], iter := [.emit [98]] }).wire
+    = strBytes "HTTP/1.1 200 OK\r\nTransfer-Encoding: chunked\r\nConnection: close\r\n\r\n1\r\na\r\n1\r\nb\r\n0\r\n\r\n".toList := by
+  decide +kernel
+
+/-- **An error before anything was sent gives the fallback response, whole**: the closure variables
+are rolled back and `InternalServerError()` runs as if it had been the application — the wire is
+exactly what `execute` writes for it on a clean slate (after the interim responses). -/
+theorem run_wsgi_error_before_head (c : Conf) (pre : Bytes) (expect : Bool) (a fb : AppRun)
+    (st1 : HState) (cl : Nat)
+    (hex : execute c { wire := startWire pre expect } a = (st1, cl, true))
+    (hsent : st1.statusSent = none) :
+    (runHandler c pre expect a fb).wire = (execute c { wire := startWire pre expect } fb).1.wire ∧
+    (runHandler c pre expect a fb).closeCalls = cl := by
+  have h0 : WInv c (startWire pre expect) { wire := startWire pre expect } := WInv.fresh c _
+  obtain ⟨_, hr, _⟩ := execute_spec _ a h0
+  rw [hex] at hr
+  have h1 := hr rfl
+  obtain ⟨u1, u2, u3, u4⟩ := h1.unsent hsent
+  have hd := h1.notDone
+  have hst : rollback st1 = { wire := startWire pre expect } := by
+    unfold rollback
+    cases st1
+    simp only at hsent u1 u2 u3 u4 hd
+    subst hsent u1 u2 u3 u4 hd
+    rfl
+  unfold runHandler finish
+  rw [hex]
+  simp only [Bool.not_true, Bool.false_eq_true, if_false, hst]
+  exact ⟨trivial, trivial⟩
+
+example : (runHandler ⟨"HTTP/1.1".toList, [], false⟩ [] true
+    { call := [.emit [97]] }   -- write() before start_response: AssertionError
+    { call := [.start "500 X".toList [("Content-Length".toList, "1".toList)] false], iter := [.emit [98]] }).wire
+    = strBytes "HTTP/1.1 100 Continue\r\n\r\nHTTP/1.1 500 X\r\nContent-Length: 1\r\nConnection: close\r\n\r\nb".toList := by
+  decide +kernel
+
+/-- **`close()` of the application's iterable is called exactly once** when the application call
+returned (whether or not the iteration or the writer failed afterwards) and the iterable has the
+method; never when the call itself raised; the fallback's iterable is not counted. -/
+theorem run_wsgi_close_once (c : Conf) (pre : Bytes) (expect : Bool) (a fb : AppRun) :
+    (runHandler c pre expect a fb).closeCalls =
+      if a.closable && !((runEvs c { wire := startWire pre expect } a.call).2 || a.callRaises) then 1 else 0 := by
+  have hcl : (runHandler c pre expect a fb).closeCalls = (execute c { wire := startWire pre expect } a).2.1 := by
+    unfold runHandler finish
+    split <;> rfl
+  rw [hcl]
+  unfold execute
+  generalize runEvs c { wire := startWire pre expect } a.call = r1
+  obtain ⟨st1, r1⟩ := r1
+  simp only
+  by_cases hc : (r1 || a.callRaises) = true
+  · simp [hc]
+  · simp only [hc, Bool.false_eq_true, if_false]
+    generalize runEvs c st1 a.iter = r2
+    obtain ⟨st2, r2⟩ := r2
+    simp only
+    by_cases hi : (r2 || a.iterRaises) = true
+    · cases hcl : a.closable <;> simp [hi]
+    · simp only [hi, Bool.false_eq_true, if_false]
+      cases (if truthy st2.headersSent = true then some st2 else step c st2 (.emit [])) <;>
+        cases hcl : a.closable <;> simp
+
+/-! ### structure of `run_wsgi`'s source that the state machine transcribes (AST facts, every run) -/
+
+open Wz.Gen.RunWsgiFacts in
+/-- **The state machine is the code**: `run_wsgi` starts with
+`if self.headers.get("Expect", "").lower().strip() == "100-continue": write(b"HTTP/1.1 100 Continue\r\n\r\n")`
+(`continueLine`); `write` asserts that status and headers are set, sends status line and headers only
+inside `if status_sent is None:` and always ends the head with `Connection: close`; its only socket
+writes are the size line, `\r\n`, the data, `\r\n`; `start_response` tests `exc_info`, then the
+*truthiness* of `headers_sent` resp. `headers_set` (the empty-list quirk of F19c); `execute` calls the
+application outside its `try`, closes with `if not headers_sent: write(b"")` and
+`if chunk_response: write(b"0\r\n\r\n")` (`zeroChunk`), and calls `application_iter.close()` exactly
+in its `finally`; the error path rolls `status_set` / `headers_set` back only when nothing was sent and
+runs `execute(InternalServerError())` with every exception swallowed. -/
+theorem run_wsgi_source_structure :
+    expectTest = "self.headers.get('Expect', '').lower().strip() == '100-continue'" ∧
+    continueLiteral = continueLine ∧ zeroChunkLiteral = zeroChunk ∧
+    writeAsserts = ["status_set is not None", "headers_set is not None", "isinstance(data, bytes)"] ∧
+    sentOnlyWhenNone = true ∧ connectionCloseAlways = true ∧
+    wfileWritesInWrite = ["b'\\r\\n'", "b'\\r\\n'", "data", "hex(len(data))[2:].encode()"] ∧
+    startResponseTests = ["exc_info", "headers_set", "headers_sent"] ∧
+    appCallOutsideTry = true ∧ closingWriteTest = "not headers_sent" ∧ terminatorTest = "chunk_response" ∧
+    closeInFinally = true ∧ rollbackOnlyWhenUnsent = true ∧ fallbackIsInternalServerError = true ∧
+    fallbackErrorsSwallowed = true := by
+  decide +kernel
+
+/-! ### the chunked request body on its way to the application (`make_environ` ∘ `get_input_stream`) -/
+
+/-- **A chunked body is never cut by a Content-Length and never replaced by the empty stream**: when
+`make_environ` marked the input as terminated (it did so exactly for `Transfer-Encoding: chunked`,
+`chunked_sets_terminated`), `wsgi.get_input_stream` — whatever CONTENT_LENGTH text the client sent
+next to it, whatever the letter case of the coding, with or without `safe_fallback` — hands the
+application the de-chunking stream itself (no maximum), or that stream under
+`LimitedStream(max, is_max=True)`, or refuses with 413 because the *declared* length exceeds the
+maximum; never a `LimitedStream` of the declared length and never `BytesIO()`. -/
+theorem chunked_body_not_cut_by_content_length (cl : Option (List Char)) (teIsLowerChunked safe : Bool)
+    (max : Option Nat) :
+    (max = none → LS.getInputStream cl teIsLowerChunked true max safe = .raw) ∧
+    (∀ m, max = some m → LS.getInputStream cl teIsLowerChunked true max safe = .limited m true ∨
+      LS.getInputStream cl teIsLowerChunked true max safe = .tooLarge) ∧
+    (teIsLowerChunked = true → ∀ m, max = some m →
+      LS.getInputStream cl teIsLowerChunked true max safe = .limited m true) := by
+  refine ⟨?_, ?_, ?_⟩
+  · intro h; subst h
+    cases hn : LS.getContentLength cl teIsLowerChunked <;> simp [LS.getInputStream, hn]
+  · intro m h; subst h
+    cases hn : LS.getContentLength cl teIsLowerChunked with
+    | none => simp [LS.getInputStream, hn]
+    | some n => by_cases hgt : n > m <;> simp [LS.getInputStream, hn, hgt]
+  · intro ht m h; subst h ht
+    simp [LS.getInputStream, LS.getContentLength]
+
+example : LS.getInputStream (some ['3']) false true none true = .raw := by decide
+
+/-! ### request header names → environ keys (live table) -/
+
+/-- **Every branch of `make_environ`'s key mapping, on the live code**: for each of the header names
+of `Gen.EnvKeys` — `Content-Type` / `Content-Length` in any letter case (un-prefixed, last value
+wins), every *other* `Content-*` name (`Content-Encoding`, `-Disposition`, `-Range`, `-MD5`,
+`-Language`, `-Location`) and every near miss of the two (`Content-Typex`, `Content-Type-`,
+`Content-Lengths`, `X-Content-Type`, `Content`, `Content-`, `Http-Content-Type`: all `HTTP_`-prefixed
+and comma-joined), underscore names (`Content_Type`, `Content-Type_`, `X_A`, `User_Agent`: dropped),
+names that resemble fixed environ keys (`Server-Name`, `Remote-Addr`, `Path-Info`, `Wsgi.Input`,
+`Host`) — the environ entries the real handler derived from `name: v1`, `X-Other: o`, `name: v2` are
+exactly what the model's `foldHeaders` computes. -/
+theorem env_key_table_matches_model :
+    ∀ r ∈ Gen.EnvKeys.table,
+      foldHeaders [(r.1, "v1".toList), ("X-Other".toList, "o".toList), (r.1, "v2".toList)] = r.2 := by
   decide +kernel
 
 end Wz.Props.C19
